@@ -154,6 +154,20 @@ func (fr *frame) havocLoop(st *PState, b *ssa.BasicBlock, ord int) {
 				if eff.trace {
 					traceMod = true
 				}
+				for _, ht := range eff.heapTypes {
+					name, h := st.Heap(ht)
+					st.SetHeap(name, st.Fresh(name+"_loop", h.Sort))
+					// objects of this type held in local cells (address-taken locals) may be written too
+					for id, cv := range st.cells {
+						if f, ok := cv.(*fwdCell); ok {
+							_ = f
+							continue
+						}
+						if t, ok := cv.(T); ok && t.Go != nil && types.Identical(t.Go, ht) {
+							st.cells[id] = st.FreshOf("loopcell", ht)
+						}
+					}
+				}
 			}
 		}
 	}
@@ -271,6 +285,7 @@ type callEff struct {
 	unknown bool       // may write anything
 	state   bool       // may write the chain state (not the heaps, not the trace)
 	trace   bool
+	heapTypes []types.Type // may write objects of these pointee types
 }
 
 var pureInvokes = map[string]bool{"Valid": true, "Key": true, "Value": true, "Close": true, "Error": true, "String": true, "Get": true, "Has": true,
@@ -300,6 +315,11 @@ func (fr *frame) callEffects(st *PState, c *ssa.CallCommon, depth int) callEff {
 		if cv, ok := fr.valOrNil(st, c.Value).(*ClosureVal); ok && depth < 3 {
 			return fr.bodyEffects(st, cv.Fn, depth+1)
 		}
+		if p, isParam := c.Value.(*ssa.Parameter); isParam && depth == 0 {
+			if ct, ok := ex.CS.ByFunc[fr.fn.String()+"#"+p.Name()]; ok {
+				return fr.contractEffects(ct, c.Signature(), nil)
+			}
+		}
 		eff.unknown = true
 		return eff
 	}
@@ -328,21 +348,7 @@ func (fr *frame) callEffects(st *PState, c *ssa.CallCommon, depth int) callEff {
 		return eff
 	}
 	if ct, ok := ex.CS.ByFunc[q]; ok && ct.Flags["inline"] == "" {
-		for _, m := range ct.Modifies {
-			m = strings.TrimSpace(m)
-			if m == "trace" {
-				eff.trace = true
-			} else if m != "" {
-				eff.state = true
-				if strings.HasPrefix(m, "*") || strings.HasPrefix(m, "heap[") {
-					eff.unknown = true
-				}
-			}
-		}
-		if len(ct.Emits) > 0 {
-			eff.trace = true
-		}
-		return eff
+		return fr.contractEffects(ct, c.Signature(), f)
 	}
 	if mc, ok := c.Value.(*ssa.MakeClosure); ok {
 		f = mc.Fn.(*ssa.Function)
@@ -351,6 +357,60 @@ func (fr *frame) callEffects(st *PState, c *ssa.CallCommon, depth int) callEff {
 		return fr.bodyEffects(st, f, depth+1)
 	}
 	eff.unknown = true
+	return eff
+}
+
+// contractEffects reads the effects of a call off the callee's modifies clause.
+func (fr *frame) contractEffects(ct *Contract, sig *types.Signature, f *ssa.Function) callEff {
+	var eff callEff
+	pn, _ := paramNames(sig, f)
+	var ptypes []types.Type
+	if f == nil && sig.Recv() != nil {
+		ptypes = append(ptypes, sig.Recv().Type())
+	}
+	if f != nil {
+		for _, p := range f.Params {
+			ptypes = append(ptypes, p.Type())
+		}
+	} else {
+		for i := 0; i < sig.Params().Len(); i++ {
+			ptypes = append(ptypes, sig.Params().At(i).Type())
+		}
+	}
+	for _, m := range ct.Modifies {
+		m = strings.TrimSpace(m)
+		switch {
+		case m == "":
+		case m == "trace":
+			eff.trace = true
+		case strings.HasPrefix(m, "*"):
+			name := strings.TrimSpace(m[1:])
+			found := false
+			for i, n := range pn {
+				if n == name && i < len(ptypes) {
+					if pt, ok := ptypes[i].Underlying().(*types.Pointer); ok {
+						eff.heapTypes = append(eff.heapTypes, pt.Elem())
+						found = true
+					}
+				}
+			}
+			if !found {
+				eff.unknown = true
+			}
+		case strings.HasPrefix(m, "heap["):
+			tn := strings.Trim(m[5:len(m)-1], "\"")
+			if gt := fr.ex.LookupType(tn); gt != nil {
+				eff.heapTypes = append(eff.heapTypes, gt)
+			} else {
+				eff.unknown = true
+			}
+		default:
+			eff.state = true
+		}
+	}
+	if len(ct.Emits) > 0 {
+		eff.trace = true
+	}
 	return eff
 }
 
@@ -379,6 +439,7 @@ func (fr *frame) bodyEffects(st *PState, f *ssa.Function, depth int) callEff {
 				eff.unknown = eff.unknown || e.unknown
 				eff.state = eff.state || e.state
 				eff.trace = eff.trace || e.trace
+				eff.heapTypes = append(eff.heapTypes, e.heapTypes...)
 			}
 		}
 	}
